@@ -541,6 +541,26 @@ def helper_rules(p: Program, name: str, fn: FuncInfo) -> List[Finding]:
             out.append((rule, "undecided", "", f"{name}: {msg}"))
 
     paths = it.paths
+    # `not file` / `if file:` is read as `file is None` / `is not None` (see iteration()): that reading is only right while the
+    # repository's upload class has no truth value of its own - with a __bool__/__len__ a falsy upload object (empty filename,
+    # empty file) is taken for "no upload open" and its bytes go to the field buffer
+    FILE_ = ("param", "file")
+    if any(f == FILE_ for pa in paths for f, _t in pa.facts):
+        try:
+            up = p.cls("baize.datastructures:UploadFile")
+        except Exception:
+            up = None
+        if up is None:
+            und("R1.4", "the upload slot is tested by truthiness and the upload class UploadFile was not found")
+        else:
+            for dn in ("__bool__", "__len__"):
+                m_ = p.find_method(up, dn)
+                if m_ is not None:
+                    bad("R1.4", f"truthiness of the upload slot with UploadFile.{dn}",
+                        f"the upload slot is tested by truthiness (`not file`) although UploadFile defines {dn} ({m_.fq}): an upload object that is falsy (e.g. empty filename) "
+                        "is handled as if no upload were open - its bytes are buffered and decoded as a text field and the file object is dropped")
+            if not any(p.find_method(up, dn) for dn in ("__bool__", "__len__")):
+                ok("R1.4", "the upload slot is tested by truthiness and UploadFile defines neither __bool__ nor __len__")
     if from_gen:
         # terminal events never reach the handling code
         paths = [pa for pa in paths if pa.classes - TERMINAL]
